@@ -30,6 +30,8 @@ claimed = {
    "every LinearCombination operator preserves value under every assignment, lifted to arbitrary op sequences; evaluate_query_set keys/values; SuccinctCheckPolynomial evaluate = Horner over compute_coeffs = product form, length 2^k; random op sequences through the public operators compared term by term with the model."),
  "C18": ("Lean proof (any reduction tree = sequential fold; index-preserving map/unzip; disjoint for_each) + generated parallel-site inventory (T2) + digest comparison across thread counts and feature sets",
    "parReduce over any split tree equals foldl for associative operators with identity; the translator regenerates the list of every cfg_iter!/rayon site and RNG-under-parallel site from /repo on each run and `decide` checks them against the allow-list the theorems cover; serialized outputs of all schemes are hashed in child processes under RAYON_NUM_THREADS in {1,2,3,8,16} and in a build without the parallel feature. Partial: what rayon does at run time is outside the model."),
+ "C12": ("Lean proof (codec combinators preserve round-trip/size/prefix-failure; schema agreement => struct codec Good) + serializer schemas regenerated from source (T1) + real round-trips",
+   "codec library with round-trip, size and prefix-failure preserved by seq/vec/option/map/btreemap; roundtrip_of_schema_agree instantiated by `decide` on the field lists the translator extracts from the hand-written CanonicalSerialize/Deserialize/Valid impls on every run; every artefact of every scheme is round-tripped (compress x validate), sizes, all proper prefixes, decisions with deserialized artefacts, byte layout = model order. Partial: primitive point/field encodings and the derive macro are trusted."),
 }
 # properties whose machinery is not built yet (listed under not_applicable with that reason, as the brief asks)
 not_yet = {
